@@ -153,6 +153,7 @@ var assumptions = []string{
 	"callbacks are delivered by calling agent.TaskDispatch on the sender's session object (what handleDemonAgent and the SMB_COMMAND branch do after unwrapping); transport and encryption are C03/C08's subject",
 	"only agents known to the teamserver act; any known agent may send any pivot callback, whatever its Active flag (the callback contents are under the agent's control)",
 	"the database lives on tmpfs when /dev/shm is available (process-kill durability is not part of C09)",
+	"reopen restores through a transcription of the restore loop of (*Teamserver).Start() (AgentAll, AgentAdd, ParentOf, LinksOf); the real Start() is exercised by C10(c)",
 }
 
 // ---------------------------------------------------------------- (b) random histories
@@ -178,11 +179,11 @@ func genB(t *rapid.T) Case {
 	for i := 0; i < ninit; i++ {
 		c.Init = append(c.Init, i)
 	}
-	c.Existed = rapid.Bool().Draw(t, "existed")
+	c.DB = rapid.SampledFrom([]string{"fresh", "existed", "golden"}).Draw(t, "db")
 	nops := rapid.IntRange(1, 25).Draw(t, "nops")
 	kinds := []string{"connect", "connect", "connect", "connect", "connect", "connect", "connect", "connect",
 		"disconnect", "disconnect", "disconnect", "disconnect",
-		"exit", "killdate", "markdead", "markdead", "markalive", "reg", "connectfail"}
+		"exit", "killdate", "markdead", "markdead", "markalive", "reg", "connectfail", "reopen"}
 	// one history in three starts by building a hub: agent 0 links 2..n-1 others (and, at n=3, the
 	// extra agent), so that agents with 3 and more links die / are re-parented often enough
 	if rapid.IntRange(0, 2).Draw(t, "hub") == 0 {
@@ -215,7 +216,7 @@ func genB(t *rapid.T) Case {
 func TestC09b(t *testing.T) {
 	core.Run(t, core.Spec[Case]{
 		Property: "C09", Sub: "b",
-		Rule: "random histories of 1..25 events over 3-5 agents (ids from the whole 32-bit range incl. >= 2^31, 1..n registered at start, database file new or pre-existing) with events reg, connect(p,c) for any pair incl. self / ancestor / an id never seen, failed connect, disconnect(p,x) incl. non-children, unknown ids and Removed=FALSE, exit, killdate, markdead, markalive; one history in three starts with agent 0 linking 2..n-1 (+1) children and possibly dying, so that deaths with 3 and more links are frequent (labels death-links:0/1/2/3+); same oracle as (a). Non-trivial: a second link, a re-parenting, or a self/ancestor connect; distinct = (those four flags, links at death, death of a child, length bucket, child disconnect)",
+		Rule: "random histories of 1..25 events over 3-5 agents (ids from the whole 32-bit range incl. >= 2^31, 1..n registered at start; database file, a third each: fresh / created by the current code and opened again / a copy of the committed testdata/golden-schema.db made by the unchanged tree's db.DatabaseNew - labels db:fresh|existed|golden) with events reg, connect(p,c) for any pair incl. self / ancestor / an id never seen, failed connect, disconnect(p,x) incl. non-children, unknown ids and Removed=FALSE, exit, killdate, markdead, markalive, and reopen (~1 event in 20: a new Teamserver on the same file restores sessions and links as Start() does, then the history goes on - labels db:reopened, pivot-events-after-reopen, re-parenting-on-existing-db; a reopen is only performed while every stored link joins two active sessions); a violation that occurs on the golden file only, while its schema differs from a fresh one, is reported as schema|existing-database-differs-from-fresh|<tables>; one history in three starts with agent 0 linking 2..n-1 (+1) children and possibly dying, so that deaths with 3 and more links are frequent (labels death-links:0/1/2/3+); same oracle as (a). Non-trivial: a second link, a re-parenting, or a self/ancestor connect; distinct = (those four flags, links at death, death of a child, length bucket, child disconnect)",
 		Gen:   genB, Check: checkCase, Classify: classify,
 		Assumptions: assumptions,
 	})
